@@ -3,13 +3,13 @@ package checks
 import (
 	"context"
 	"fmt"
+	"math/rand"
 	"os"
 	"os/exec"
 	"path/filepath"
 	"sort"
 	"strconv"
 	"strings"
-	"math/rand"
 	"sync"
 	"time"
 
@@ -242,7 +242,9 @@ func init() {
 			nSeeds = len(W.Objs)
 			return nil
 		},
-		Cases:   func(c *mon.Ctx) int { return nSeeds + c.Pick(12000, 400000) + directedCount(c)/c.Pick(6, 1) + c05PairCases(c) },
+		Cases: func(c *mon.Ctx) int {
+			return nSeeds + c.Pick(12000, 400000) + directedCount(c)/c.Pick(6, 1) + c05PairCases(c)
+		},
 		RunCase: func(c *mon.Ctx, i int) { c05Case(c, i, c.Only >= 0 || i%c05FreshEvery == 0) },
 		Aux:     map[string]func(c *mon.Ctx){"io": c05IOAux},
 		Finish: func(c *mon.Ctx, r *mon.Report, ev *mon.Evidence) []string {
